@@ -236,10 +236,14 @@ fn decode_bytes_lzw(buf: &dyn ParseBufferT, earlyexchange: i64) -> Vec<u8> {
 // The layout of a row of `columns` pixels of `colors` components of
 // `bitspercolumn` bits each: the number of bytes per complete pixel
 // (rounded up, as in the PNG specification) and the number of bytes
-// per row.  None if the sizes do not fit a usize.
+// per row.  None if the parameters are not valid (a negative value
+// arrives here as a huge one) or the sizes do not fit a usize.
 fn predictor_row_layout(
     colors: usize, columns: usize, bitspercolumn: usize,
 ) -> Option<(usize, usize)> {
+    if colors < 1 || columns < 1 || ![1, 2, 4, 8, 16].contains(&bitspercolumn) {
+        return None
+    }
     let pixel_bits = colors.checked_mul(bitspercolumn)?;
     let row_bits = columns.checked_mul(pixel_bits)?;
     let pixel_bytes = pixel_bits.checked_add(7)? / 8;
